@@ -16,7 +16,7 @@ TOL = 1e-12
 
 HEADER = """From Coq Require Import List Arith Bool ZArith QArith Qcanon.
 From VZ Require Import Model.K02_Windows Model.K03_Cooc Model.K03_Exec Model.K04_EM.
-From VZ Require Model.K04_EM_idx Model.K02_Windows_idx.
+From VZ Require Model.K04_EM_idx Model.K02_Windows_idx Model.K03_Driver_idx.
 Import ListNotations.
 Open Scope nat_scope.
 Definition em_seq (post : list Qc) (indices indptr : list nat) (prior : list Qc) (n : nat)
@@ -27,6 +27,8 @@ Definition em_seq (post : list Qc) (indices indptr : list nat) (prior : list Qc)
                         | e => e
                         end) occs (K04_EM_idx.Ok post).
 Definition show_wk (wk : list nat * list Qc) := (fst wk, map show (snd wk)).
+Definition show_keyed (l : list (event QcK * nat)) :=
+  map (fun ek : event QcK * nat => (e_blk (fst ek), e_row (fst ek), e_col (fst ek), show (e_val (fst ek) : Qc), snd ek)) l.
 """
 
 # ------------------------------------------------------------------ generators
@@ -151,6 +153,45 @@ def gen_radii(rng, malformed=False):
     return case
 
 
+def gen_drv(rng, jit=False, malformed=False):
+    """numba_build_skip_grams called directly.  The compiled modes need one compilation per type of the
+    (kernel_functions, kernel_args) tuples, so only the `jit` family (two harmonic/flat blocks with masking, or one
+    geometric block without) runs compiled; the interpreted mode runs every shape."""
+    n = rng.randint(2, 4)
+    if jit:
+        fam = rng.choice(["A", "A", "B"])
+        nb, masking = (2, True) if fam == "A" else (1, False)
+        kernel = rng.choice(["flat", "harmonic"]) if fam == "A" else "geometric"
+    else:
+        nb, masking = rng.choice([1, 2, 3]), rng.random() < 0.5
+        kernel = rng.choice(["flat", "harmonic", "geometric"])
+    blocks = []
+    for _ in range(nb):
+        if rng.random() < 0.6:
+            R = rng.choice([0, 1, 2, 5, 100])
+            radii = [R] * n + [0 if masking else R]                      # fixed_window_radii
+        else:
+            radii = [rng.choice([0, 1, 2, 3]) for _ in range(n)] + [0]    # variable_window_radii (min entry or mask)
+        blocks.append({"radii": radii, "rev": rng.random() < 0.5, "mask": n if masking else None,
+                       "normalize": rng.random() < 0.4, "offset": rng.choice([0, 0, 1, 3]),
+                       "mix": rng.choice([1.0, 1.0, 0.5, 2.0])})
+    docs = []
+    for _ in range(rng.choice([1, 2, 3])):
+        L = rng.choice([0, 1, 2, 5, 6])
+        docs.append([n if (masking and rng.random() < 0.2) else rng.randrange(n) for _ in range(L)])
+    if not any(docs):
+        docs.append([0, n - 1])
+    case = {"kind": "drv", "n": n, "blocks": blocks, "kernel": kernel, "nw": rng.random() < 0.5, "docs": docs,
+            "array_lengths": [64] * nb, "jit": jit}
+    if kernel == "geometric":
+        case["power"] = rng.choice([0.5, 0.25])
+    if malformed:
+        d = rng.choice([x for x in docs if x])
+        d[rng.randrange(len(d))] = n + rng.choice([1, 2])
+        case["malformed"] = "token-beyond-radius-table"
+    return case
+
+
 CORPUS = [
     # D9: row 0 = {0}, the occurrence looks column 1 up: searchsorted = len(col_ind), and row 1 starts with column 1
     {"kind": "em", "n": 2, "indptr": [0, 1, 2], "indices": [0, 1], "prior": [0.5, 0.25], "post": [0.0, 0.0],
@@ -168,6 +209,13 @@ CORPUS = [
     {"kind": "ker", "win": [], "kernel": "flat", "mask": 0, "normalize": True, "offset": 3},
     {"kind": "radii", "fn": "fixed", "R": 3, "freq": [0.5, 0.25, 0.25], "mask": 3, "power": 0.75},
     {"kind": "radii", "fn": "variable", "R": 3, "freq": [0.5, 0.25, 0.25], "mask": 3, "power": 0.75},
+]
+CORPUS += [
+    {"kind": "drv", "n": 3, "kernel": "harmonic", "nw": True, "docs": [[0, 1, 3, 2], [1], []], "array_lengths": [64, 64], "jit": True,
+     "blocks": [{"radii": [2, 2, 2, 0], "rev": False, "mask": 3, "normalize": False, "offset": 0, "mix": 1.0},
+                {"radii": [1, 1, 1, 0], "rev": True, "mask": 3, "normalize": True, "offset": 0, "mix": 0.5}]},
+    {"kind": "drv", "n": 3, "kernel": "geometric", "power": 0.5, "nw": False, "docs": [[0, 1, 2, 2]], "array_lengths": [64], "jit": True,
+     "blocks": [{"radii": [2, 2, 2, 2], "rev": False, "mask": None, "normalize": False, "offset": 0, "mix": 1.0}]},
 ]
 CORPUS_MALFORMED = [
     {"kind": "radii", "fn": "fixed", "R": 3, "freq": [0.5, 0.25, 0.25], "mask": 4, "power": 0.75, "malformed": "mask-beyond-table"},
@@ -215,6 +263,13 @@ def coq_expr(case, vals=None):
                                                      "; ".join(ql(kk) for kk in o["kernels"])) for o in case["occs"]) + "]"
         return "@K04_EM_idx.show_res QcK _ show (em_seq %s %s %s %s %d %s)" % (
             ql(case["post"]), nl(case["indices"]), nl(case["indptr"]), ql(case["prior"]), case["n"], occs)
+    if k == "drv":
+        kf = kf_expr(case)
+        blocks = "[" + "; ".join("mkblock %s %s %s %s %s %d %s" % (
+            C.coq_bool(b["rev"]), nl(b["radii"]), kf, C.coq_opt(b["mask"], lambda m: str(int(m))), C.coq_bool(b["normalize"]),
+            b["offset"], qc(b["mix"])) for b in case["blocks"]) + "]"
+        return "K03_Driver_idx.show_dres show_keyed (K03_Driver_idx.build_skip_grams_idx (K03_Driver_idx.tables_of %s) %s %d %s %s)" % (
+            blocks, C.coq_bool(case["nw"]), case["n"], nl(case["array_lengths"]), "[" + "; ".join(nl(d) for d in case["docs"]) + "]")
     W = "K02_Windows_idx."
     if k == "win":
         return W + "show_res id (%swindow_at_index_idx %s %s %s %s)" % (W, nl(case["s"]), zz(case["R"]), zz(case["p"]),
@@ -238,8 +293,11 @@ def model_verdict(v):
     val, site = v
     if val is not None:
         return "ok", val[1]
-    s = site[1]
-    return "oob", s[-1] if isinstance(s, tuple) else s
+    def flat(x):
+        if isinstance(x, tuple):
+            return " ".join(flat(y) for y in x if y != "ctor")
+        return str(x)
+    return "oob", flat(site[1])
 
 
 def frac(p):
@@ -251,9 +309,38 @@ def close(x, q):
     return abs(F(x) - q) <= F(TOL) * max(1, abs(q))
 
 
+def diff_drv(case, impl, model):
+    """The appended tuples in call order (interpreted mode: recorded coo_append calls, incl. the key) and the
+    accumulators the driver returns (every mode: per block, summed by key, sorted by key)."""
+    events = [(blk, row, col, frac(q), key) for blk, row, col, q, key in model]
+    if "log" in impl:
+        if len(impl["log"]) != len(events):
+            return "coo_append calls: %d vs model %d" % (len(impl["log"]), len(events))
+        for k, ((blk, row, col, q, key), (r, c, v, ky)) in enumerate(zip(events, impl["log"])):
+            if (r, c, ky) != (row, col, key) or abs(v - float(q)) > 1e-6 * max(1.0, float(q)):
+                return "coo_append call %d: (row, col, val, key) = %r vs model %r" % (k, (r, c, v, ky), (row, col, float(q), key))
+    if len(impl["coo"]) != len(case["blocks"]):
+        return "%d accumulators vs %d blocks" % (len(impl["coo"]), len(case["blocks"]))
+    for b in range(len(case["blocks"])):
+        agg = {}
+        for blk, row, col, q, key in events:
+            if blk == b:
+                agg[key] = (row, col, agg.get(key, (0, 0, F(0)))[2] + q)
+        want = [(agg[k][0], agg[k][1], agg[k][2], k) for k in sorted(agg)]
+        got = impl["coo"][b]
+        if len(got) != len(want):
+            return "accumulator %d holds %d entries vs model %d: %r" % (b, len(got), len(want), got[:6])
+        for (row, col, q, key), (r, c, v, ky) in zip(want, got):
+            if (r, c, ky) != (row, col, key) or abs(v - float(q)) > 1e-5 * max(1.0, float(q)):
+                return "accumulator %d: entry %r vs model %r" % (b, (r, c, v, ky), (row, col, float(q), key))
+    return None
+
+
 def diff_value(case, impl, model):
     """None when the implementation's value equals the model's."""
     k = case["kind"]
+    if k == "drv":
+        return diff_drv(case, impl, model)
     if k in ("win", "radii"):
         return None if list(impl) == list(model) else "%r vs model %r" % (impl, model)
     if k == "wk":
@@ -269,6 +356,10 @@ def diff_value(case, impl, model):
 
 
 def same_across_modes(a, b):
+    if isinstance(a, dict) and "coo" in a:
+        return len(a["coo"]) == len(b["coo"]) and all(
+            len(x) == len(y) and all(p[:2] == q[:2] and p[3] == q[3] and abs(p[2] - q[2]) <= 1e-5 * max(1.0, abs(p[2]))
+                                     for p, q in zip(x, y)) for x, y in zip(a["coo"], b["coo"]))
     if isinstance(a, dict):
         return a["window"] == b["window"] and same_across_modes(a["kernel"], b["kernel"])
     if len(a) != len(b):
@@ -284,6 +375,8 @@ def nontrivial(case):
         return case["R"] > 0 and len(case["s"]) > 1
     if k == "ker":
         return bool(case["win"])
+    if k == "drv":
+        return any(len(d) >= 2 for d in case["docs"])
     return True
 
 
@@ -291,6 +384,9 @@ def label(case):
     k = case["kind"]
     if case.get("malformed"):
         return "idx:malformed:" + case["malformed"]
+    if k == "drv":
+        return "idx:drv:%s%s%s" % (case["kernel"], ":mask" if case["blocks"][0]["mask"] is not None else "",
+                                   ":all-modes" if case.get("jit") else ":interpreted-only")
     if k == "em":
         empty = any(case["indptr"][o["target"]] == case["indptr"][o["target"] + 1] for o in case["occs"])
         return "idx:em" + (":empty-row" if empty else "")
@@ -317,9 +413,12 @@ def make_cases(ctx, replay=None):
     valid += [gen_wk(rng) for _ in range(80 * m)]
     valid += [gen_ker(rng) for _ in range(40 * m)]
     valid += [gen_radii(rng) for _ in range(30 * m)]
+    valid += [gen_drv(rng, jit=True) for _ in range(25 * m)]
+    valid += [gen_drv(rng) for _ in range(35 * m)]
     bad = list(CORPUS_MALFORMED)
     bad += [gen_em(rng, malformed=True) for _ in range(10 * m)]
     bad += [gen_radii(rng, malformed=True) for _ in range(10 * m)]
+    bad += [gen_drv(rng, jit=True, malformed=True) for _ in range(6 * m)]
     return valid, bad
 
 
@@ -347,7 +446,8 @@ def finish(ctx, st):
             inflight = (valid + bad)[len(out)] if len(out) < len(valid + bad) else None
             ctx.report("index-level %s child died (rc=%s) on case %s: %s" % (m, info["rc"], inflight, info["tail"][-400:]),
                        {"stage": "idx-impl-crash", "mode": m, "case": inflight}, found_input=True)
-        res[m] = out + [None] * (n_expected - len(out))
+        res[m] = [None if (r and isinstance(r.get("ok"), dict) and r["ok"].get("skip")) else r
+                  for r in out + [None] * (n_expected - len(out))]
     model = {}
     for c, v in zip(st["early"], st["model"].result()):
         model[id(c)] = model_verdict(v)
@@ -364,7 +464,7 @@ def finish(ctx, st):
     n_cmp = n_verdict = 0
     for i, c in enumerate(valid):
         ctx.count_case(c, nontrivial=nontrivial(c), kind=label(c))
-        if "kernel" in c:
+        if "kernel" in c and "normalize" in c:
             ctx.dist("idx:kernel:%s%s%s" % (c["kernel"], ":mask" if c.get("mask") is not None else "",
                                             ":normalize" if c["normalize"] else ""))
         verdict, mval = model[id(c)]
@@ -414,4 +514,4 @@ def finish(ctx, st):
         "valid_cases": len(valid), "malformed_cases_checked_modes_only": len(bad),
         "verdict_comparisons": n_verdict, "value_comparisons": n_cmp, "float_tolerance": TOL,
         "models": ["K04_EM_idx.em_update_idx", "K02_Windows_idx.window_at_index_idx", "window_kernel_idx", "kernel_idx",
-                   "fixed_window_radii_idx", "variable_window_radii_idx"]}
+                   "fixed_window_radii_idx", "variable_window_radii_idx", "K03_Driver_idx.build_skip_grams_idx"]}
